@@ -118,12 +118,19 @@ Qed.
 (* ---------- small facts on ends_with / pop / starts_with / take_line ---------- *)
 
 Lemma ends_with_app1 : forall b s x, ends_with b (s ++ [x]) = (x =? b).
-Proof. intros b s x. unfold ends_with. rewrite rev_app_distr. reflexivity. Qed.
+Proof.
+  intros b s x. induction s as [|y t IH]; [reflexivity|].
+  cbn [app ends_with]. destruct (t ++ [x]) as [|z r] eqn:E.
+  - destruct t; discriminate.
+  - exact IH.
+Qed.
 
 Lemma ends_with_In : forall b s, ends_with b s = true -> In b s.
 Proof.
-  intros b s. unfold ends_with. destruct (rev s) as [|x r] eqn:E; [discriminate|].
-  intros H. apply N.eqb_eq in H. subst x. apply in_rev. rewrite E. left. reflexivity.
+  intros b s. induction s as [|x t IH]; [discriminate|].
+  cbn [ends_with]. destruct t as [|y r].
+  - intros H. apply N.eqb_eq in H. subst x. left. reflexivity.
+  - intros H. right. apply IH. exact H.
 Qed.
 
 Lemma ends_with_notin : forall b s, ~ In b s -> ends_with b s = false.
